@@ -23,14 +23,19 @@ def txnum(table, txid):
     return table[txid]
 
 
-def observe(w, table, name, db_uri):
+def observe(w, table, name, db_uri, accounts=()):
     from bitcoinlib.wallets import Wallet
 
     def read(x):
         ut = x.utxos()
         keys = x.keys()
         ids = [k.id for k in keys]
+        accts = []
+        for a in accounts:
+            accts.append([a, int(x.balance(account_id=a)),
+                          [[txnum(table, u['txid']), u['output_n'], u['value']] for u in x.utxos(account_id=a)]])
         return {'balance': int(x.balance()), 'utxos': [[txnum(table, u['txid']), u['output_n'], u['value']] for u in ut],
+                'acct': int(x.default_account_id or 0), 'accts': accts,
                 'keybal': [[k.id, int(k.balance)] for k in keys],
                 'wkbal': [[i, int(x.key(i).balance())] for i in ids[:12]]}
     live = read(w)
@@ -44,7 +49,7 @@ def observe(w, table, name, db_uri):
 
 
 def keys_snapshot(w, single):
-    return [[k.id, 1 if single else int(k.change or 0)] for k in w.keys() if k.address]
+    return [[k.id, 1 if single else int(k.change or 0), int(k.account_id or 0)] for k in w.keys() if k.address]
 
 
 def wallet_history(job):
@@ -79,6 +84,13 @@ def wallet_history(job):
         return {'seed': seed, 'kind': kind, 'events': [], 'desc': [], 'setup_error': repr(e)}
     single = scheme == 'single'
     net = w.network
+    accounts = []
+    if scheme == 'hd' and rng.random() < 0.45:
+        try:
+            w.new_account()
+            accounts = [0, 1]
+        except Exception as e:
+            return {'seed': seed, 'kind': kind, 'events': [], 'desc': [], 'setup_error': 'second account: %r' % e}
     # another wallet in the same database file, with a funded key: nothing of it may ever be spent by w
     foreign = None
     try:
@@ -109,9 +121,9 @@ def wallet_history(job):
     def record(ev, text):
         ev['keys'] = keys_snapshot(w, single)
         try:
-            ev['live'], ev['fresh'] = observe(w, table, name, db_uri)
+            ev['live'], ev['fresh'] = observe(w, table, name, db_uri, accounts)
         except Exception as e:
-            ev['live'] = ev['fresh'] = {'balance': -1, 'utxos': [], 'keybal': [], 'wkbal': []}
+            ev['live'] = ev['fresh'] = {'balance': -1, 'utxos': [], 'keybal': [], 'wkbal': [], 'acct': 0, 'accts': []}
             text += ' [observation raised %r]' % e
         events.append(ev)
         desc.append(text)
@@ -148,8 +160,12 @@ def wallet_history(job):
         return {'ins': ins, 'outs': outs, 'fee': int(t.fee if t.fee is not None else -1), 'vsize': vsize}
 
     def do_tx(kind_):
-        keys = own_keys()
-        spendable = w.utxos()
+        acct = rng.choice(accounts) if accounts else 0
+        # own addresses used as recipients are of the sending account: the library files a transaction, with all its
+        # outputs, under ONE account, so a payment between two accounts of a wallet is outside what this driver exercises
+        keys = [k for k in own_keys() if not accounts or int(k.account_id or 0) == acct]
+        akw = {'account_id': acct} if accounts else {}
+        spendable = w.utxos(**akw)
         fee = rng.choice([None, None, 2000, 5000, 100000, 'low', 'high'])
         minconf = rng.choice([0, 1, 1, 2, 5])
         broadcast = rng.random() < 0.6
@@ -164,7 +180,7 @@ def wallet_history(job):
         tainted = False
         rbf = rng.random() < 0.3
         q = {'fee': fee if isinstance(fee, int) else -1, 'minconf': minconf, 'inkeys': inkeys, 'sweep': kind_ == 'sweep', 'explicit': explicit,
-             'above': -1,
+             'above': -1, 'acct': acct,
              'feemin': net.fee_min if net.fee_min < 2000000 else 0, 'feemax': net.fee_max if net.fee_max < 2000000 else 0}
         t = None
         err = None
@@ -181,7 +197,7 @@ def wallet_history(job):
                     inkeys.append(k.id)
                 recips = [(to, amount)]
                 t = w.send_to(to, amount, input_key_id=inkeys[0] if inkeys else None, fee=fee, min_confirms=minconf,
-                              broadcast=broadcast, number_of_change_outputs=nchange, replace_by_fee=rbf)
+                              broadcast=broadcast, number_of_change_outputs=nchange, replace_by_fee=rbf, **akw)
             elif kind_ == 'send_inputs':
                 # explicit input list: some unspent outputs of the wallet, sometimes with an output the wallet has already
                 # spent or with the same outpoint twice (min_confirms is documented as ignored for explicit inputs)
@@ -215,29 +231,29 @@ def wallet_history(job):
                         kid = next((x[3] for x in reports if x[0] == a[0] and x[1] == a[1]), None)
                         return (a[0], a[1], kid, a[2]) if kid else (a[0], a[1])
                     return (a[0], a[1])
-                t = w.send(recips, input_arr=[spec_in(a) for a in arr], fee=fee, broadcast=broadcast, number_of_change_outputs=nchange)
+                t = w.send(recips, input_arr=[spec_in(a) for a in arr], fee=fee, broadcast=broadcast, number_of_change_outputs=nchange, **akw)
             elif kind_ == 'send':
                 n = rng.randrange(2, 4)
                 recips = []
                 for i in range(n):
                     recips.append((rng.choice(EXT + ([rng.choice(keys).address] if keys else [])), rng.choice([700, 5000, 20000, 20000, 300000])))
-                t = w.send(recips, fee=fee, min_confirms=minconf, broadcast=broadcast, number_of_change_outputs=nchange, replace_by_fee=rbf)
+                t = w.send(recips, fee=fee, min_confirms=minconf, broadcast=broadcast, number_of_change_outputs=nchange, replace_by_fee=rbf, **akw)
             else:
                 if rng.random() < 0.5:
                     recips = [(EXT[0], 0)]
                     t = w.sweep(EXT[0], min_confirms=minconf, fee=fee if fee != 'low' else None, broadcast=broadcast,
-                                max_utxos=rng.choice([999, 999, 2]))
+                                max_utxos=rng.choice([999, 999, 2]), **akw)
                 else:
                     recips = [(EXT[1], rng.choice([1500, 20000])), (EXT[2], 0)]
                     t = w.sweep([recips[0], recips[1]], min_confirms=minconf, fee=fee if isinstance(fee, int) else None,
-                                broadcast=broadcast)
+                                broadcast=broadcast, **akw)
         except (WalletError, TransactionError, ValueError) as e:
             err = repr(e)[:120]
         q['recips'] = [[0, int(a)] for _, a in recips]
         ev = {'op': 'tx', 'q': q, 'created': False, 'stored': False, 'tnum': 0, 'kind': kind_,
               'x': {'ins': [], 'outs': [], 'fee': 0, 'vsize': 0}}
-        text = '%s(%s, fee=%r, min_confirms=%d, broadcast=%s, change_outputs=%d%s)' % (
-            kind_, [(a[:8], v) for a, v in recips], fee, minconf, broadcast, nchange, ((', input_key_id=%s' % inkeys) if inkeys else '') +
+        text = '%s%s(%s, fee=%r, min_confirms=%d, broadcast=%s, change_outputs=%d%s)' % (
+            ('[account %d] ' % acct) if accounts else '', kind_, [(a[:8], v) for a, v in recips], fee, minconf, broadcast, nchange, ((', input_key_id=%s' % inkeys) if inkeys else '') +
             ((', input_arr=%s' % ['tx%d:%d' % (a, b) for a, b in explicit]) if explicit else ''))
         if t is not None and err is None:
             ev['created'] = True
@@ -257,7 +273,8 @@ def wallet_history(job):
                 pass
             elif not broadcast and kind_ != 'sweep' and (rng.random() < 0.35 or force[0] == 'spend_most_unsent'):
                 unsent.append((t, recips))
-            elif not broadcast and rng.random() < 0.5:
+            elif not broadcast and rng.random() < 0.5 and acct == 0:
+                # (transaction_import has no account argument: a transaction of another account would be filed under the default one)
                 imports.append((t, recips))
             text += ' -> inputs %s outputs %s fee %s%s' % (ev['x']['ins'], ev['x']['outs'], ev['x']['fee'], ' PUSHED' if t.pushed else '')
         else:
@@ -362,12 +379,18 @@ def wallet_history(job):
     elif sc < 0.80:
         # one funding transaction with several outputs, all spent by one broadcast transaction; nothing is left to spend
         plan = ['key', 'add', 'add_same', 'add_same', 'spend_most', 'tx', 'tx', 'tx']
+    if accounts and rng.random() < 0.5:
+        # funded keys whose ids alternate between the accounts: account 0, account 1, account 0 again
+        plan = ['key_a0', 'add_last', 'key_a1', 'add_last', 'key_a0', 'add_last', 'key_a1', 'add_last']
     force = [None]
+    last_key = [None]
     for step in range(nops):
         r = rng.random()
         forced = plan[step] if step < len(plan) else None
-        if forced == 'key':
+        if forced in ('key', 'key_a0', 'key_a1'):
             r = 0.0
+        elif forced == 'add_last':
+            r = 0.2
         elif forced in ('add', 'add_old', 'add_young', 'add_same'):
             r = 0.2
         elif forced == 'update_all':
@@ -383,21 +406,30 @@ def wallet_history(job):
                 if single:
                     k = w.get_key()
                 else:
-                    k = rng.choice([w.new_key, w.get_key, w.new_key_change])()
-                record({'op': 'key'}, 'key %d' % k.key_id)
+                    if forced in ('key_a0', 'key_a1'):
+                        k = w.new_key(account_id=int(forced[-1]))
+                    elif accounts:
+                        k = rng.choice([w.new_key, w.get_key, w.new_key_change])(account_id=rng.choice(accounts))
+                    else:
+                        k = rng.choice([w.new_key, w.get_key, w.new_key_change])()
+                last_key[0] = k
+                record({'op': 'key'}, 'key %d%s' % (k.key_id, (' (account %d)' % k.account_id) if accounts else ''))
             elif (r < 0.34 or step in (1, 2)) and keys:
                 k = rng.choice(keys)
-                if reports and rng.random() < 0.3:
-                    txid, n = rng.choice(reports)[0], rng.randrange(0, 3)       # another output of a known transaction
+                if forced == 'add_last' and last_key[0] is not None:
+                    k = next((x for x in keys if x.id == last_key[0].key_id), k)
+                same_acct = [x for x in reports if x[6] == int(k.account_id or 0)]     # a transaction is filed under one account
+                if same_acct and rng.random() < 0.3:
+                    txid, n = rng.choice(same_acct)[0], rng.randrange(0, 3)       # another output of a known transaction
                 else:
                     txid, n = newtxid(), rng.choice([0, 0, 1, 5])
                 if any(x[0] == txid and x[1] == n for x in reports):
                     continue
                 v = rng.choice(VALUES)
                 conf = rng.choice([0, 1, 3, 10])
-                if force[0] == 'add_same' and reports:
+                if force[0] == 'add_same' and same_acct:
                     # several outputs of one funding transaction
-                    txid, n, conf = reports[0][0], max(x[1] for x in reports if x[0] == reports[0][0]) + 1, reports[0][5]
+                    txid, n, conf = same_acct[0][0], max(x[1] for x in reports if x[0] == same_acct[0][0]) + 1, same_acct[0][5]
                     v = rng.choice([150000, 1000000, 20000])
                 if force[0] == 'add_old':
                     txid, n, v, conf = newtxid(), 0, 150000, 10
@@ -406,19 +438,28 @@ def wallet_history(job):
                 for x in reports:                   # confirmations belong to the transaction: one count per txid
                     if x[0] == txid:
                         conf = x[5]
-                w.utxo_add(k.address, v, txid, n, confirmations=conf)
-                reports.append([txid, n, v, k.id, k.address, conf])
+                if accounts:
+                    # utxo_add has no account argument and files the output under the default account
+                    w.utxos_update(account_id=int(k.account_id), rescan_all=False, utxos=[
+                        {'address': k.address, 'script': '', 'confirmations': conf, 'output_n': n, 'txid': txid, 'value': v}])
+                else:
+                    w.utxo_add(k.address, v, txid, n, confirmations=conf)
+                reports.append([txid, n, v, k.id, k.address, conf, int(k.account_id or 0)])
                 record({'op': 'utxo_add', 'rep': [[txnum(table, txid), n, v, k.id, conf]]}, 'utxo_add(key %d, %d, tx%d:%d, conf=%d)' % (k.id, v, txnum(table, txid), n, conf))
             elif r < 0.42 and reports:
-                sub = [x for x in reports if rng.random() < 0.7 or force[0] == 'update_all']
+                ua = rng.choice(accounts) if accounts else 0
+                sub = [x for x in reports if (rng.random() < 0.7 or force[0] == 'update_all') and x[6] == ua]
                 rescan = rng.random() < 0.6
                 ul = [{'address': x[4], 'txid': x[0], 'confirmations': x[5], 'output_n': x[1], 'input_n': 0, 'block_height': None, 'fee': None,
                        'size': 0, 'value': x[2], 'script': '', 'date': None} for x in sub]
                 if not ul:
                     continue
-                w.utxos_update(utxos=ul, rescan_all=rescan)
-                record({'op': 'utxos_update', 'rescan': rescan, 'rep': [[txnum(table, x[0]), x[1], x[2], x[3], x[5]] for x in sub]},
-                       'utxos_update(%d reported outputs, rescan_all=%s)' % (len(sub), rescan))
+                if accounts:
+                    w.utxos_update(account_id=ua, utxos=ul, rescan_all=rescan)
+                else:
+                    w.utxos_update(utxos=ul, rescan_all=rescan)
+                record({'op': 'utxos_update', 'rescan': rescan, 'acct': ua, 'rep': [[txnum(table, x[0]), x[1], x[2], x[3], x[5]] for x in sub]},
+                       'utxos_update(%s%d reported outputs, rescan_all=%s)' % (('account %d, ' % ua) if accounts else '', len(sub), rescan))
             elif r < 0.74:
                 do_tx(rng.choice(['send_to', 'send_to', 'send', 'sweep', 'send_inputs']))
             elif r < 0.80 and (stored or reports):
